@@ -431,8 +431,12 @@ func (rs *s3ClientStorage) GetObject(ctx context.Context, bucketName storage.Buc
 		ranges = []storage.ByteRange{{Start: nil, End: nil}}
 	}
 
-	// First, get object metadata
-	object, err := rs.HeadObject(ctx, bucketName, key, nil)
+	// First, get object metadata (of the requested version)
+	var headOpts *storage.HeadObjectOptions
+	if opts != nil && opts.VersionID != nil {
+		headOpts = &storage.HeadObjectOptions{VersionID: opts.VersionID}
+	}
+	object, err := rs.HeadObject(ctx, bucketName, key, headOpts)
 	if err != nil {
 		return nil, nil, err
 	}
